@@ -208,6 +208,7 @@ type c05Run struct {
 	vec   map[string][2]string // lint → status, details
 	snapB string
 	snapA string
+	io    int64 // file / network / process system calls issued while linting (syscall seam)
 }
 
 func c05LintOnce(kind seeds.Kind, derBytes []byte, ctl uintptr, seed uint32, now int64, reg lint.Registry) (*c05Run, *zl.Obj) {
@@ -220,7 +221,9 @@ func c05LintOnce(kind seeds.Kind, derBytes []byte, ctl uintptr, seed uint32, now
 	}
 	r := &c05Run{vec: map[string][2]string{}}
 	r.snapB = snapshot(o)
+	io0 := seam.IOCalls()
 	rs, p := zl.Lint(o, reg)
+	r.io = seam.IOCalls() - io0
 	r.snapA = snapshot(o)
 	if p != nil || rs == nil {
 		return nil, o
@@ -248,6 +251,9 @@ func c05State(st *xstate.State, nctl int, seedsList []uint32, rep *core.Report) 
 				rep.Inc("transitions")
 				rep.Inc("validated")
 				rep.Inc("map_order_runs")
+			}
+			if r.io != 0 {
+				add("C05|performs_io", fmt.Sprintf("linting issued %d file / network / process system call(s) (openat, fstatat, faccessat, readlinkat, socket, connect, fork/exec — counted inside package syscall)", r.io))
 			}
 			if r.snapA != r.snapB {
 				o2, _ := zl.Parse(st.Seed.Kind, st.DER)
@@ -402,6 +408,12 @@ func checkC05(ctx *core.Ctx, rep *core.Report) {
 		return
 	}
 	all := seeds.Load()
+	_ = time.Now().Local().String() // the runtime reads the local time zone once, lazily: not the linter's doing
+	if seam.IOSeam {
+		rep.Note("syscall seam installed: file / network / process system calls are counted around every lint run of the map-order exploration")
+	} else {
+		rep.Hole("syscall seam could not be installed on this Go toolchain: I/O freedom is decided by the strace pass only")
+	}
 	rep.Add("seeds_total", int64(len(all)))
 	// ---- history independence first: this process's first lint call is shard-specific --------
 	c05Histories(ctx, rep, all)
